@@ -364,6 +364,10 @@ def run_c18(job, tier, deadline_s):
         for s in itertools.combinations(cands, r):
             for b in backgrounds:
                 configs.append(tuple(sorted(set(s) | set(b))))
+    # the prefix-less DES family shares its recognition code: every subset of {descrypt, bigcrypt, bsdicrypt} next to one strong method
+    for r in range(0, 4):
+        for s in itertools.combinations(("descrypt", "bigcrypt", "bsdicrypt"), r):
+            configs.append(tuple(sorted(set(s) | {"sha512crypt"})))
     configs = [c for c in dict.fromkeys(configs) if c and len(c) < 16]
     st["c18_configurations"] = len(configs)
     full_var = build.build_variant("o1")
